@@ -201,6 +201,11 @@ fn stress(cfg: &Cfg, out: &mut Out) {
                     }
                     let hay = format!("{}{}{}", fa.repeat(la), n, fb.repeat(lb));
                     one_str(out, &hay, n);
+                    if lb == 0 || lb == 33 {
+                        // the needle does not occur at all / only its first byte does
+                        one_str(out, &format!("{}{}", fa.repeat(la), fb.repeat(lb)), n);
+                        one_str(out, &format!("{}a{}", fa.repeat(la), fb.repeat(lb)), "ab");
+                    }
                 }
             }
         }
